@@ -37,3 +37,22 @@ Example ex_contains :
   contains net10 (mkIp 32 184549376) = false /\ contains net10 (mkIp 128 167838211) = false /\
   contains ph64 ph = true /\ contains (mkCidr 32 0 0) ip8 = true.
 Proof. vm_compute. repeat split. Qed.
+
+(* non-vacuity of C09_serializable_with_reloads: two workers of one key and two reloads whose
+   policies (1: allowlist, 2: blocklist) judge both messages as policy 0 does; the reloads land
+   between the workers' sections; terminal *)
+From CJ Require Import C09.ProofsS C09.ProofsSR.
+Definition tm1 := mkMsg 0 1 true true [false; false; false] [true; true; true] false false.
+Definition tm2 := mkMsg 0 2 true false [false; false; false] [false; false; false] false false.
+Definition t_rls := [TReload 1 false; TReload 2 false].
+Example ex_reloads_ok : reloads_ok [tm1; tm2] t_rls.
+Proof.
+  intros th [<-|[<-|[]]]; eexists _, _; (split; [reflexivity|]);
+    intros t L; (destruct t as [|[|t]]; [| |cbn in L; lia]); split; reflexivity.
+Qed.
+Definition t_acts := [Run 0 0; Run 2 0; Run 1 0; Run 0 0; Run 3 0; Run 0 0; Run 0 0; Run 1 0; Run 1 0; Run 1 0].
+Example ex_reloads_terminal :
+  let c := run false false (init (workers [tm1; tm2] ++ t_rls)) t_acts in
+  thread_ended (thr c 0) = true /\ thread_ended (thr c 1) = true /\ Model.pol c = 2 /\
+  view c 0 = Some (true, true, 1, 2).
+Proof. vm_compute. repeat split. Qed.
